@@ -271,6 +271,10 @@ def rule_d(ctx):
             # real position (same element as for list); not allowed for insert,
             # where an out-of-range negative index must clamp to the front
             continue
+          if raw == 'list.insert' and v == f'max(0, {ia.id} + len(self))' and _under_negative_test(g, dn, ia.id):
+            # exactly the clamp list.insert itself applies to a negative position (front when out of
+            # range): the same element positions, spelled out so that the reported path is the real one
+            continue
           if v not in ('key', 'len(self)', 'param'):
             problems.append(f'index handed to {raw} is redefined as `{v}` (line {dn.lineno}): '
                             f'negative / out-of-range positions no longer mean what they mean for list')
